@@ -447,6 +447,8 @@ class Evaluator:
             raise OrdUnknown(f"{fi.name}: subscript of {base}")
         if isinstance(sl, ast.Slice):
             lo, hi, st = sl.lower, sl.upper, sl.step
+            if isinstance(lo, ast.Constant) and lo.value == 0 and not isinstance(lo.value, bool):
+                lo = None               # x[0:n] is x[:n]
             if st is not None:
                 if lo is None and hi is None and isinstance(st, ast.UnaryOp) and isinstance(st.op, ast.USub) \
                         and isinstance(st.operand, ast.Constant) and st.operand.value == 1:
